@@ -104,7 +104,9 @@ def strategy_(draw, thorough):
     if not updates:
         updates = [{"a": {"s": "b"}}]
     case = {"frame": fr, "opts": opts, "kv": kv, "target": target, "updates": updates,
-            "key_as_bytes": draw(st.booleans())}
+            "key_as_bytes": draw(st.sampled_from([True, False, False, "mixed"])),
+            # a data file whose name merely contains "_metadata" is still a data file
+            "fname": draw(st.sampled_from(["t.parq", "t.parq", "sensor_metadata.parquet", "my_metadata_v2.parq"]))}
     if draw(st.integers(0, 3)) == 0:
         # DataFrame.attrs travel in the key/value metadata too (key PANDAS_ATTRS), next to the caller's keys
         case["attrs"] = draw(st.sampled_from([{"a": 1}, {"unit": "m", "n": [1, 2]}, {"é": "ü"}]))
@@ -141,18 +143,20 @@ def run_case(case):
     fr, opts = case["frame"], case["opts"]
     labels = ["target:" + case["target"]]
     with common.Scratch() as d:
-        path = os.path.join(d, "t.parq" if opts["file_scheme"] == "simple" else "ds")
+        path = os.path.join(d, case.get("fname", "t.parq") if opts["file_scheme"] == "simple" else "ds")
         df = cases.build_frame(fr)
         if case.get("attrs"):
             df.attrs = json.loads(json.dumps(case["attrs"]))
-        cm = {(k.encode("utf8") if case.get("key_as_bytes") else k): _py(v) for k, v in case["kv"].items()}
+        kab = case.get("key_as_bytes")
+        cm = {(k.encode("utf8") if (kab is True or (kab == "mixed" and i % 2)) else k): _py(v) for i, (k, v) in enumerate(case["kv"].items())}
         try:
             with cases.writer_globals(opts):
                 fastparquet.write(path, df, compression=opts["compression"], row_group_offsets=opts["rgo"],
                                   file_scheme=opts["file_scheme"], custom_metadata=cm or None)
             orig = fastparquet.ParquetFile(path).to_pandas()
         except Exception as e:
-            return discard("write_or_first_read_raised:" + exc_sig(e), labels)
+            # plain columns and str/bytes keys and values: nothing here may be refused
+            return viol("write_or_first_read_raised|" + exc_sig(e), exc_detail(e), labels=labels)
         target = path if case["target"] == "data" else os.path.join(path, "_metadata")
         with open(target, "rb") as f:
             data0 = f.read()
